@@ -164,6 +164,9 @@ def run_case(c):
             continue
         rec["recipe"] = recipe
         rec["built"] = abstract_assertion(obj, idmap)
+        lo, hi = getattr(obj, "_left", None), getattr(obj, "_right", None)
+        rec["ends"] = None if (isinstance(obj, bool) or lo is None or hi is None) else \
+            [abstract_operand(lo, idmap), abstract_operand(hi, idmap)]
         level.add_assertion(obj)
         attaches.append(rec)
     wrap = c.get("wrap")
